@@ -6,6 +6,7 @@ import (
 	"encoding/binary"
 	"encoding/json"
 	"fmt"
+	"github.com/ethereum/go-ethereum/metrics"
 	"math/rand"
 	"net"
 	"os"
@@ -218,6 +219,9 @@ func checkReply(req, reply []byte) string {
 
 func childMain(tier string, from, to int, progPath, resPath string) {
 	debug.SetGCPercent(200)
+	if lib.MetricsWanted(tier) {
+		metrics.Enable() // before any node exists, as cmd/shisui does with --metrics
+	}
 	seed := int64(1)
 	if s := os.Getenv("VERIF_SEED"); s != "" {
 		if v, err := strconv.ParseInt(s, 10, 64); err == nil {
@@ -524,6 +528,61 @@ func (c *child) runSegment(s segment, lo, hi int) {
 			c.done(s.Kind, s.Net, in)
 		}
 		c.queueLiveness(s)
+	case s.Kind == "startup":
+		// Requests that arrive while a node is starting and while it is stopping: the discv5 listener is shared and
+		// already serving when PortalProtocol.Start runs, so peers that know the endpoint can reach the sub-protocol's
+		// handler at any point of its start-up and shutdown. Four peers with established sessions send well-formed
+		// PINGs and FINDNODES back to back while a fresh node is started and then stopped.
+		rngP := c.rng("startup-payload", s.Net, 0)
+		b, _ := (&portalwire.Ping{EnrSeq: 1, PayloadType: 0, Payload: validPayload(rngP, 0)}).MarshalSSZ()
+		msgs := [][]byte{append([]byte{portalwire.PING}, b...), findNodesMsg(rngP), {portalwire.FINDCONTENT, 4, 0, 0, 0, 0x00, 1, 2, 3}}
+		for i := lo; i < hi; i++ {
+			local := i - s.start
+			rng := c.rng(s.Kind, s.Net, local)
+			c.logCase(i, s.Kind, s.Net, []byte{byte(local)})
+			n, err := c.env.hub.StartNode(pnode.NodeOpts{Key: pnode.NewKey(rng), Addr: pnode.Addr4(10, 0, 9, byte(1+local%250), uint16(9000+local/250)), Network: ne.proto, Versions: []uint8{0, 1},
+				MaxUtp: 10, RespTimeout: 300 * time.Millisecond, NoStart: true, VersionsTTL: time.Hour})
+			if err != nil {
+				c.count("startup_node_setup_failed", 1)
+				c.done(s.Kind, s.Net, []byte{byte(local)})
+				continue
+			}
+			for _, adv := range c.env.advs { // sessions first: an unknown sub-protocol is answered with an empty TALKRESP
+				_, _ = adv.Talk(n.Self(), string(ne.proto), msgs[0])
+			}
+			stop := make(chan struct{})
+			var fwg sync.WaitGroup
+			var sent atomic.Int64
+			for ai, adv := range c.env.advs {
+				fwg.Add(1)
+				go func(ai int, adv *pnode.Adversary) {
+					defer fwg.Done()
+					for k := 0; ; k++ {
+						select {
+						case <-stop:
+							return
+						default:
+						}
+						_, _ = adv.Talk(n.Self(), string(ne.proto), msgs[(ai+k)%len(msgs)])
+						sent.Add(1)
+					}
+				}(ai, adv)
+			}
+			time.Sleep(time.Duration(rng.Intn(800)) * time.Microsecond)
+			startErr := n.P.Start()
+			time.Sleep(time.Duration(200+rng.Intn(1500)) * time.Microsecond)
+			if startErr == nil {
+				n.P.Stop()
+			}
+			time.Sleep(300 * time.Microsecond)
+			close(stop)
+			fwg.Wait()
+			n.Utp.Stop()
+			n.Disc.Close()
+			c.count("startup_requests_sent_during_start_and_stop", int(sent.Load()))
+			c.count("startup_nodes_started_and_stopped_under_traffic", 1)
+			c.done(s.Kind, s.Net, []byte{byte(local), byte(local >> 8)})
+		}
 	case s.Kind == "wire-talkreq" || s.Kind == "wire-utp":
 		c.wireParallel(s, lo, hi, func(i, local int, adv *pnode.Adversary, rng *rand.Rand) []byte {
 			var msg []byte
